@@ -21,6 +21,13 @@ def run(tier):
             st["skipped_unproductive"] += 1
             continue
         st["grammars"] += 1
+        if "complete=1 valid=1" in r["validate"]:
+            st["validated"] = st.get("validated", 0) + 1
+        else:
+            ck.violation("the verified validators (complete / validItems; theorems C06_error_token_is_first_offending, C06_expected_set_exact) reject the tables gocc generated "
+                         "for a conflict-free, error-free, productive grammar: %s" % r["validate"],
+                         {"bnf": r["text"], "validate": r["validate"], "tables": r["impl_lrtab"], "unchecked": "per-grammar obligations complete/validItems = true"},
+                         found_input=False)
         base = {(tuple(c["w"]), c["extra"]): c for c in r["cases"] if c["kind"] == "baseline"}
         for w, c in parses.items():
             if not c["impl"].startswith("synerr"):
